@@ -1497,7 +1497,17 @@ class Mailbox:
         the index of where the UID is in the list of UID's is the index of the
         msg key in the list of msg_keys.
         """
+        # NOTE: The index dicts are rebuilt at the end of an expunge. A caller
+        #       that does not wait for its turn on the mailbox (a POP3 session
+        #       looking at the messages of its snapshot) may get here while
+        #       one is running and `uids` is shorter than the index says.
+        #
         idx = self._uid_to_idx[uid]
+        if idx >= len(self.uids) or self.uids[idx] != uid:
+            try:
+                idx = self.uids.index(uid)
+            except ValueError as exc:
+                raise KeyError(uid) from exc
         return self.get_msg(self.msg_keys[idx])
 
     ####################################################################
